@@ -253,6 +253,8 @@ def paren_variants(tree):
 
 # ---- plan -------------------------------------------------------------------
 def family_items(name, tier):
+    if name == 'twins':
+        return twin_items()
     if name == 'leaf':
         return list(F.FULL_LEAVES)
     if name == 'one-full':
@@ -287,10 +289,33 @@ def family_items(name, tier):
     raise KeyError(name)
 
 
+# formulas that differ only in white space INSIDE a text literal or a quoted
+# sheet name, parsed one after the other in every order: each keeps its own
+# characters whatever was parsed before
+TWIN_GROUPS = [
+    [('str', 'a b'), ('str', 'a  b'), ('str', 'a\nb')],
+    [('str', ' '), ('str', '  '), ('str', '\t')],
+    [('ref', "'P L'!C3"), ('ref', "'P  L'!C3")],
+    [('call', 'SUM', [('str', 'x y'), ('ref', 'A1')]),
+     ('call', 'SUM', [('str', 'x  y'), ('ref', 'A1')])],
+    [('bin', '&', ('ref', "'P L'!A1:B2"), ('str', ' ')),
+     ('bin', '&', ('ref', "'P  L'!A1:B2"), ('str', ' ')),
+     ('bin', '&', ('ref', "'P L'!A1:B2"), ('str', '  '))],
+]
+
+
+def twin_items():
+    out = []
+    for gi, group in enumerate(TWIN_GROUPS):
+        for oi, order in enumerate(itertools.permutations(range(len(group)))):
+            out.append((gi, oi, [group[k] for k in order]))
+    return out
+
+
 FAMILIES = {
     'leaf': 'exhaustive', 'one-full': 'few', 'calls-full': 'few',
     'calls-3': 'few', 'small-exh': 'exhaustive', 'two-reduced': 'few',
-    'paren': 'few', 'strings': 'single', 'names': 'few',
+    'paren': 'few', 'strings': 'single', 'names': 'few', 'twins': 'single',
 }
 _ITEMS = {}
 
@@ -321,7 +346,12 @@ def run_shard(shard, ctx):
     max_exh = BOUNDS[tier]['exhaustive_ws_gaps_up_to']
     its = items(name, tier)[shard['lo']:shard['hi']]
     for it in its:
-        if name == 'strings':
+        if name == 'twins':
+            gi, oi, trees = it
+            for t in trees:
+                judge_tree('twins-g%d-o%d' % (gi, oi), t, 'single', ctx,
+                           max_exh, with_terms=False)
+        elif name == 'strings':
             s, placement = it
             tree = string_tree(s, placement)
             judge_tree('strings/' + placement, tree,
@@ -331,7 +361,8 @@ def run_shard(shard, ctx):
             judge_tree(name, it, mode, ctx, max_exh,
                        with_terms=(name != 'names'))
     if shard['lo'] == 0 and its:
-        t = its[0] if name != 'strings' else string_tree(*its[-1])
+        t = its[0] if name not in ('strings', 'twins') else (
+            string_tree(*its[-1]) if name == 'strings' else its[0][2][0])
         ctx.sample({'family': name, 'text': F.render(F.tokens(t)),
                     'tree': repr(F.canon(t))})
 
